@@ -98,3 +98,103 @@ pub fn fitted_multi_hook<C: PartialOrd + Clone>(
 ) -> MultiFittedLogisticRegression<f64, C> {
     MultiFittedLogisticRegression::new(intercept, params, classes)
 }
+
+// ---------------------------------------------------------------------------------------------
+// scalar- and storage-generic variants (f32 instantiation, views / non-standard layouts)
+
+pub fn label_classes_hook_g<F: Float, C: Ord + Clone>(
+    y: &Array1<C>,
+) -> std::result::Result<(C, C, Array1<F>), Error> {
+    let (labels, target) = label_classes::<F, _, C>(y)?;
+    Ok((labels.pos.class, labels.neg.class, target))
+}
+
+pub fn label_classes_multi_hook_g<F: Float, C: Ord + Clone>(
+    y: &Array1<C>,
+) -> std::result::Result<(Vec<C>, Array2<F>), Error> {
+    label_classes_multi::<F, _, C>(y)
+}
+
+pub fn logistic_hook_g<F: Float>(x: F) -> F {
+    logistic(x)
+}
+
+pub fn log_logistic_hook_g<F: Float>(x: F) -> F {
+    log_logistic(x)
+}
+
+pub fn log_sum_exp_rows_hook_g<F: Float, A: Data<Elem = F>>(m: &ArrayBase<A, Ix2>) -> Array1<F> {
+    log_sum_exp(m, Axis(1))
+}
+
+pub fn softmax_hook_g<F: Float>(v: &Array1<F>) -> Array1<F> {
+    let mut v = v.clone();
+    softmax_inplace(&mut v);
+    v
+}
+
+pub fn logistic_loss_hook_g<F: Float, A: Data<Elem = F>>(
+    x: &ArrayBase<A, Ix2>,
+    y: &Array1<F>,
+    alpha: F,
+    w: &Array1<F>,
+) -> F {
+    logistic_loss(x, y, alpha, w)
+}
+
+pub fn logistic_grad_hook_g<F: Float, A: Data<Elem = F>>(
+    x: &ArrayBase<A, Ix2>,
+    y: &Array1<F>,
+    alpha: F,
+    w: &Array1<F>,
+) -> Array1<F> {
+    logistic_grad(x, y, alpha, w)
+}
+
+pub fn multi_logistic_loss_hook_g<F: Float, A: Data<Elem = F>>(
+    x: &ArrayBase<A, Ix2>,
+    y: &Array2<F>,
+    alpha: F,
+    w: &Array2<F>,
+) -> F {
+    multi_logistic_loss(x, y, alpha, w)
+}
+
+pub fn multi_logistic_grad_hook_g<F: Float, A: Data<Elem = F>>(
+    x: &ArrayBase<A, Ix2>,
+    y: &Array2<F>,
+    alpha: F,
+    w: &Array2<F>,
+) -> Array2<F> {
+    multi_logistic_grad(x, y, alpha, w)
+}
+
+pub fn fitted_binary_hook_g<F: Float, C: PartialOrd + Clone>(
+    intercept: F,
+    params: Array1<F>,
+    pos: C,
+    neg: C,
+) -> FittedLogisticRegression<F, C> {
+    FittedLogisticRegression::new(
+        intercept,
+        params,
+        BinaryClassLabels {
+            pos: ClassLabel {
+                class: pos,
+                label: F::POSITIVE_LABEL,
+            },
+            neg: ClassLabel {
+                class: neg,
+                label: F::NEGATIVE_LABEL,
+            },
+        },
+    )
+}
+
+pub fn fitted_multi_hook_g<F: Float, C: PartialOrd + Clone>(
+    intercept: Array1<F>,
+    params: Array2<F>,
+    classes: Vec<C>,
+) -> MultiFittedLogisticRegression<F, C> {
+    MultiFittedLogisticRegression::new(intercept, params, classes)
+}
